@@ -577,7 +577,19 @@ impl<'c, 'k> Body for SchedBody<'c, 'k> {
                 let ops = &case.threads[t];
                 let len = info.len;
                 bodies.push(Box::new(move || {
-                    let ok = run_thread(itr, t, ops, len, stash);
+                    // a panic can leave run_thread itself only from the destructor of the thread's buffered
+                    // handle (an element left in its buffer whose injected Drop fault fires): the thread ends
+                    let ok = match std::panic::catch_unwind(std::panic::AssertUnwindSafe(|| run_thread(itr, t, ops, len, stash))) {
+                        Ok(ok) => ok,
+                        Err(p) => {
+                            if hooks::tearing_down() {
+                                std::panic::resume_unwind(p);
+                            }
+                            hooks::panic_end();
+                            crate::interp::record_thread_panic(t, ops.len(), &p);
+                            false
+                        }
+                    };
                     done.set(ok);
                 }));
             }
@@ -587,10 +599,18 @@ impl<'c, 'k> Body for SchedBody<'c, 'k> {
                 }
                 hooks::fault_point(crate::case::FaultSite::Clone);
             };
+            let drop_hook = || {
+                // never while unwinding (a second panic would abort) and never during the engine's teardown
+                if !std::thread::panicking() && !hooks::tearing_down() {
+                    hooks::fault_point(crate::case::FaultSite::Drop);
+                }
+            };
             with_monitor(sp, || {
                 hooks::with_hooks(sp, || {
                     crate::elem::with_clone_hook(&clone_hook, || {
-                        drive(sp, bodies, chooser);
+                        crate::elem::with_drop_hook(&drop_hook, || {
+                            drive(sp, bodies, chooser);
+                        })
                     })
                 })
             });
